@@ -71,6 +71,8 @@ Clone(d, rs, e) ==
     /\ uid' \in UidCands(new, [x \in new |-> uid[order[x - nextRef + 1]]], {})
     /\ CloneU(d, rs, e)
 
+RawTrip(d) == RawTripS(d) /\ RawTripU(d)
+
 SetRef(r, s, v) ==
     /\ SetRefS(r, s, v)
     /\ refp[r][s] = Absent            \* model bound: each slot is written once
